@@ -22,16 +22,28 @@ def log(msg):
 
 
 def sh(cmd, cwd=None, env=None, timeout=3600, stdin=None):
+    """Runs a command in its own process group; on timeout the whole group is killed."""
+    import signal
     e = dict(os.environ)
     e["CARGO_NET_OFFLINE"] = "true"
     if env:
         e.update(env)
+    p = subprocess.Popen(cmd, cwd=cwd, env=e, stdin=subprocess.PIPE if stdin is not None else None,
+                         stdout=subprocess.PIPE, stderr=subprocess.STDOUT, text=True, shell=isinstance(cmd, str),
+                         start_new_session=True)
     try:
-        p = subprocess.run(cmd, cwd=cwd, env=e, timeout=timeout, input=stdin,
-                           stdout=subprocess.PIPE, stderr=subprocess.STDOUT, text=True, shell=isinstance(cmd, str))
-        return p.returncode, p.stdout
-    except subprocess.TimeoutExpired as ex:
-        return 124, (ex.stdout or "") + "\nTIMEOUT"
+        out, _ = p.communicate(input=stdin, timeout=timeout)
+        return p.returncode, out
+    except subprocess.TimeoutExpired:
+        try:
+            os.killpg(p.pid, signal.SIGKILL)
+        except ProcessLookupError:
+            pass
+        try:
+            out, _ = p.communicate(timeout=10)
+        except Exception:
+            out = ""
+        return 124, (out or "") + "\nTIMEOUT"
 
 
 class Lock:
